@@ -1,9 +1,10 @@
-(* C11/Units.v — independence of the storage unit, via the C06 conversion (gen/C06_Gen.conv,
-   regenerated from autode/values.py::_to and autode/units.py) applied to the Hessian before mass
-   weighting (Hessian._mass_weighted: `H = self.to("J ang^-2")`, masses `.to("kg")`). *)
-From Coq Require Import ZArith QArith Qcanon List String Bool.
+(* C11/Units.v — independence of the storage unit: the conversion `conv` and the unit table `classes` are
+   GENERATED (gen/C06_Gen.v, from autode/values.py::_to, units.py, constants.py and Hessian.implemented_units).
+   Only C06/Base.v (the record type of a unit) and the generated file are used; the facts needed about the
+   Hessian class are proved here, so this development does not depend on the hand-written C06 files. *)
+From Coq Require Import ZArith QArith Qcanon List String Bool Field.
 From AV.lib Require Import Sums QcInst.
-From AV.C06 Require Base Model Lemmas Props.
+From AV.C06 Require Base.
 From AV.gen Require Import C06_Gen.
 From AV.C11 Require Import Base Model Lemmas.
 From AV.gen Require Import C11_Gen.
@@ -11,7 +12,39 @@ Import ListNotations.
 Open Scope string_scope.
 
 Notation unit := AV.C06.Base.unit.
-Notation find_unit := AV.C06.Model.find_unit.
+Notation utimes := AV.C06.Base.utimes.
+Notation uadd := AV.C06.Base.uadd.
+Notation ualiases := AV.C06.Base.ualiases.
+
+(* Value.to(name): the first implemented unit one of whose aliases is the (lower-cased) name *)
+Definition has_alias (a : string) (u : unit) : bool := existsb (String.eqb a) (ualiases u).
+Definition find_unit (cls : list unit) (a : string) : option unit := find (has_alias a) cls.
+
+(* every unit of the class is a pure factor (no shift) with a non-zero factor *)
+Definition factor_only (u : unit) : bool := Qc_eqb (uadd u) (Q2Qc 0) && negb (Qc_eqb (utimes u) (Q2Qc 0)).
+
+Lemma hessian_class_factor_only cls : In ("Hessian", cls) classes -> forallb factor_only cls = true.
+Proof.
+  unfold classes. cbn [In]. intros H.
+  repeat (destruct H as [H|H]; [try discriminate H; injection H as <-; vm_compute; reflexivity|]).
+  contradiction.
+Qed.
+
+Lemma factor_only_spec u : factor_only u = true -> uadd u = Q2Qc 0 /\ utimes u <> Q2Qc 0.
+Proof.
+  unfold factor_only. rewrite andb_true_iff, negb_true_iff. intros [H1 H2]. split.
+  - apply Qc_eqb_eq. exact H1.
+  - intros E. apply Qc_eqb_eq in E. congruence.
+Qed.
+
+Lemma conv_path (x : Qc) (u v j : unit) :
+  factor_only u = true -> factor_only v = true -> factor_only j = true ->
+  conv (conv x u v) v j = conv x u j.
+Proof.
+  intros Hu Hv Hj. destruct (factor_only_spec _ Hu) as [Au Tu]. destruct (factor_only_spec _ Hv) as [Av Tv].
+  destruct (factor_only_spec _ Hj) as [Aj Tj]. unfold conv. rewrite Au, Av, Aj.
+  change (Q2Qc 0) with 0%Qc in *. field. split; assumption.
+Qed.
 
 (* the unit strings written in _mass_weighted name units of the Hessian / Mass classes *)
 Lemma mw_units_exist :
@@ -33,19 +66,16 @@ Hypothesis Hu : In u cls.
 Hypothesis Hv : In v cls.
 Hypothesis Hj : find_unit cls gen_mw_hessian_unit = Some j.
 
-(* the mass-weighted matrix handed to the eigen-solver when the SAME Hessian is stored in unit v
-   instead of unit u *)
 Lemma mass_weighted_unit_independent (conv_m : Qc -> Qc) (H : nat -> nat -> Qc) (m : nat -> Qc) r c :
   mass_weighted (envQ sq pi) (fun x => conv x v j) conv_m (fun a b => conv (H a b) u v) m r c =
   mass_weighted (envQ sq pi) (fun x => conv x u j) conv_m H m r c.
 Proof.
   unfold mass_weighted. f_equal.
-  destruct (AV.C06.Lemmas.find_unit_some _ _ _ Hj) as [Hjin _].
-  destruct (AV.C06.Props.conv_roundtrip_and_path _ _ Hcls u v j Hu Hv Hjin (H r c)) as [_ [Hp _]].
-  exact Hp.
+  pose proof (hessian_class_factor_only cls Hcls) as Hall. rewrite forallb_forall in Hall.
+  assert (Hjin : In j cls) by (unfold find_unit in Hj; apply find_some in Hj; tauto).
+  apply conv_path; apply Hall; assumption.
 Qed.
 
-(* hence whatever the eigen-solver is (a function of the matrix entries), the frequencies agree *)
 Lemma frequencies_unit_independent (eig : list (list Qc) -> list Qc) (fr : Qc -> Qc)
       (conv_m : Qc -> Qc) (H : nat -> nat -> Qc) (m : nat -> Qc) d :
   map fr (eig (list_of_mat d (mass_weighted (envQ sq pi) (fun x => conv x v j) conv_m (fun a b => conv (H a b) u v) m))) =
